@@ -349,7 +349,11 @@ func C13(c *core.Child) {
 		}
 		c.Count("bases", 1)
 		for _, off := range sites {
-			for _, mag := range c13Magnitudes {
+			orig := binary.BigEndian.Uint32(base[off:])
+			// absolute magnitudes, plus counts that wrap a 32-bit byte-length
+			// product back onto the bytes actually present
+			mags := append(append([]uint32{}, c13Magnitudes...), orig+1<<28, orig+1<<29, orig+1<<30)
+			for _, mag := range mags {
 				msg := append([]byte{}, base...)
 				binary.BigEndian.PutUint32(msg[off:], mag)
 				if family != "api" && len(msg) > 64 {
